@@ -155,4 +155,80 @@ theorem mulM_mono0 {one : Nat} {p q : NExp} (hp : isMono0 one p = true) (hq : is
     isMono0 one (mulM one p q) = true :=
   isSeq0_isMono0 (mulM_seq0 (isMono_isSeq0 hp) (isMono_isSeq0 hq))
 
+theorem isNF_of_isMono0 {one : Nat} {m : NExp} (h : isMono0 one m = true) : isNF one m = true := by
+  simp only [isMono0, Bool.or_eq_true, beq_iff_eq] at h
+  rcases h with rfl | h
+  · simp [isNF]
+  · exact isNF_of_isPoly (isPoly_of_isMono h)
+
+theorem isMono0_of_isNF_nonadd {one : Nat} {p : NExp} (hna : ∀ x y, p ≠ .add x y)
+    (h : isNF one p = true) : isMono0 one p = true := by
+  simp only [isNF, Bool.or_eq_true, beq_iff_eq] at h
+  rcases h with rfl | h
+  · simp [isMono0]
+  · simp [isMono0, isMono_of_isPoly_nonadd hna h]
+
+theorem polyMono_nf {one : Nat} {m : NExp} (hm : isMono0 one m = true) :
+    ∀ {p : NExp}, isNF one p = true → isNF one (polyMono one p m) = true := by
+  intro p
+  induction p with
+  | add p1 m1 ih _ =>
+    intro hp
+    have hp' : isPoly one (.add p1 m1) = true := by simpa [isNF] using hp
+    simp only [isPoly, Bool.and_eq_true, beq_iff_eq] at hp'
+    simp only [polyMono]
+    exact addP_nf (ih (isNF_of_isPoly hp'.1.1))
+      (isNF_of_isMono0 (mulM_mono0 (by simp [isMono0, hp'.1.2]) hm))
+  | atom i s =>
+    intro hp; simp only [polyMono]
+    exact isNF_of_isMono0 (mulM_mono0 (isMono0_of_isNF_nonadd (by intro x y h; cases h) hp) hm)
+  | num n =>
+    intro hp; simp only [polyMono]
+    exact isNF_of_isMono0 (mulM_mono0 (isMono0_of_isNF_nonadd (by intro x y h; cases h) hp) hm)
+  | mul a b _ _ =>
+    intro hp; simp only [polyMono]
+    exact isNF_of_isMono0 (mulM_mono0 (isMono0_of_isNF_nonadd (by intro x y h; cases h) hp) hm)
+  | suc a _ =>
+    intro hp; simp only [polyMono]
+    exact isNF_of_isMono0 (mulM_mono0 (isMono0_of_isNF_nonadd (by intro x y h; cases h) hp) hm)
+
+theorem mulP_nf {one : Nat} {p : NExp} (hp : isNF one p = true) :
+    ∀ {q : NExp}, isNF one q = true → isNF one (mulP one p q) = true := by
+  intro q
+  induction q with
+  | add q1 m ih _ =>
+    intro hq
+    have hq' : isPoly one (.add q1 m) = true := by simpa [isNF] using hq
+    simp only [isPoly, Bool.and_eq_true, beq_iff_eq] at hq'
+    simp only [mulP]
+    exact addP_nf (ih (isNF_of_isPoly hq'.1.1)) (polyMono_nf (by simp [isMono0, hq'.1.2]) hp)
+  | atom i s =>
+    intro hq; simp only [mulP]
+    exact polyMono_nf (isMono0_of_isNF_nonadd (by intro x y h; cases h) hq) hp
+  | num n =>
+    intro hq; simp only [mulP]
+    exact polyMono_nf (isMono0_of_isNF_nonadd (by intro x y h; cases h) hq) hp
+  | mul a b _ _ =>
+    intro hq; simp only [mulP]
+    exact polyMono_nf (isMono0_of_isNF_nonadd (by intro x y h; cases h) hq) hp
+  | suc a _ =>
+    intro hq; simp only [mulP]
+    exact polyMono_nf (isMono0_of_isNF_nonadd (by intro x y h; cases h) hq) hp
+
+/-- The result of `norm_full` always has the normal-form shape. -/
+theorem norm_isNF (one : Nat) (t : NExp) : isNF one (norm one t) = true := by
+  induction t with
+  | atom i s => simp [norm, isNF, isPoly, isMono, isBody]
+  | num n =>
+    by_cases h : n = 0
+    · subst h; simp [norm, isNF]
+    · simp [norm, isNF, isPoly, isMono]; omega
+  | add a b iha ihb => simp only [norm]; exact addP_nf iha ihb
+  | mul a b iha ihb => simp only [norm]; exact mulP_nf iha ihb
+  | suc a ih => simp only [norm]; exact addP_nf ih (by simp [isNF, isPoly, isMono])
+
+/-- Normalising a normal form changes nothing. -/
+theorem norm_norm (one : Nat) (t : NExp) : norm one (norm one t) = norm one t :=
+  norm_nf (norm_isNF one t)
+
 end Holpy.C10
